@@ -1,5 +1,9 @@
 import PycsepVerif.Proto
 import PycsepVerif.Model.ForecastIter
+import PycsepVerif.Model.ForecastIterX
+import PycsepVerif.Model.ForecastConcrete
+import PycsepVerif.Model.ForecastReads
+import PycsepVerif.Drive.C04
 /-! driver ops of property C13 (prefix `c13_`) -/
 namespace Drive.C13
 open Proto ForecastIter
@@ -180,5 +184,64 @@ def handle : List String → Option String
             | none => "e")
         | none => "bad-op"
       | _, _, _, _ => "bad-op")
+  -- c13_runx <kind> <a> <af> <nBins> <nMag> <catalogs> <ops> : histories over P, E, R, S, M in which get_expected_rates may
+  --   raise inside its pass (an event with cell >= nBins lies in no bin); a raise shows as `x<position>@n_cat`
+  | ["c13_runx", kind, a, af, nb, nm, cats, ops] => some (
+      match parseCats? cats, parseList? parseOp? ops, nb.toNat?, nm.toNat? with
+      | some cats, some ops, some nb, some nm =>
+        match mkState? kind a (af = "1") nb nm cats with
+        | some st =>
+          let showX (o : OutX × Option Nat) : String :=
+            (match o.1 with | .out v => showOut v | .raised k => s!"x{k}") ++ "@" ++
+              (match o.2 with | some n => toString n | none => "none")
+          "|".intercalate ((runX st ops).map showX)
+        | none => "bad-op"
+      | _, _, _, _ => "bad-op")
+  -- c13_runc <kind> <a> <af> <FILTERS> <MCT|none> <spatial> <REGION> <MAGEDGES> <CATS> <ops> : the forecast on ROWS.
+  --   FILTERS / MCT / REGION / EVENTS as in Drive/C04.lean; CATS = `<id|none>=<EVENTS>` joined by `#`.  The model computes
+  --   what every configured filter decides about every row (C04's nextFilter) and the row's space-magnitude bin itself.
+  | ["c13_runc", kind, a, af, fs, mct, sp, rg, edges, cats, ops] => some (
+      let parseRaw (s : String) : Option (Option Nat × CatFilter.Cat) :=
+        match s.splitOn "=" with
+        | [i, evs] => do
+            let i ← parseId? i
+            let evs ← Drive.C04.parseSemi? Drive.C04.parseEvent? evs
+            some (i, ⟨evs, [], none⟩)
+        | _ => none
+      match Drive.C04.parseSemi? Drive.C04.parseStmt? fs, Drive.C04.parseMctOpt? mct, Drive.C04.parseRegion? rg,
+            parseList? parseRat? edges, (cats.splitOn "#").mapM parseRaw, parseList? parseOp? ops with
+      | some fs, some mct, some (some rg), some edges, some raws, some ops =>
+        let f : ForecastConcrete.FCfg := ⟨af = "1", fs, mct, sp = "1", ⟨rg, edges⟩⟩
+        let acats := raws.map (ForecastConcrete.absCat f)
+        match mkState? kind a (af = "1") f.grid.nBins f.grid.nMag acats with
+        | some st =>
+          let showX (o : OutX × Option Nat) : String :=
+            (match o.1 with | .out v => showOut v | .raised k => s!"x{k}") ++ "@" ++
+              (match o.2 with | some n => toString n | none => "none")
+          "|".intercalate ((runX st ops).map showX)
+        | none => "bad-op"
+      | _, _, _, _, _, _ => "bad-op")
+  -- c13_runr <kind> <a> <af> <nBins> <nMag> <catalogs> <layout> <ops> : histories that mix the operations with READS of the
+  --   expected rates in all argument forms: RD data, RS spatial_counts(), RC spatial_counts(cartesian=True), RM magnitude_counts(),
+  --   RT total.  layout = for every position of the flattened bounding-box map the cell index or `x` (no cell: NaN).
+  --   A read shows as `v<k or x,…>/<n>@<n_cat>`.
+  | ["c13_runr", kind, a, af, nb, nm, cats, layout, ops] => some (
+      let parseOpR (s : String) : Option OpR :=
+        match s with
+        | "RD" => some (.read .data) | "RS" => some (.read .spatial) | "RC" => some (.read .spatialCartesian)
+        | "RM" => some (.read .magnitude) | "RT" => some (.read .total)
+        | _ => (parseOp? s).map .op
+      let parseCell (s : String) : Option (Option Nat) := if s = "x" then some none else s.toNat?.map some
+      match parseCats? cats, parseList? parseOpR ops, parseList? parseCell layout, nb.toNat?, nm.toNat? with
+      | some cats, some ops, some layout, some nb, some nm =>
+        match mkState? kind a (af = "1") nb nm cats with
+        | some st =>
+          let showV (v : Option Nat) : String := match v with | some k => toString k | none => "x"
+          let showR (o : OutR × Option Nat) : String :=
+            (match o.1 with | .out v => showOut v | .view v n => "v" ++ showList showV v ++ "/" ++ toString n) ++ "@" ++
+              (match o.2 with | some n => toString n | none => "none")
+          "|".intercalate ((runR layout st ops).map showR)
+        | none => "bad-op"
+      | _, _, _, _, _ => "bad-op")
   | _ => none
 end Drive.C13
